@@ -391,7 +391,19 @@ def run_e2e(sc):
         R.reset(ivars=["farm", "age"])
         crashed = None
         try:
-            main(cpath, loglevel=logging.CRITICAL)
+            if sc.get("via_cli"):      # through the command line entry point (argument parsing, banner), as `ladim -s <file>`
+                import contextlib
+                import io
+                import sys as _sys
+                from ladim.main import script
+                argv, _sys.argv = _sys.argv, ["ladim", "-s", cpath]
+                try:
+                    with contextlib.redirect_stdout(io.StringIO()):
+                        script()
+                finally:
+                    _sys.argv = argv
+            else:
+                main(cpath, loglevel=logging.CRITICAL)
         except SystemExit as e:
             crashed = f"SystemExit({e.code})"
         except BaseException as e:  # noqa: BLE001
